@@ -123,10 +123,22 @@ def replay_history(item):
             with contextlib.redirect_stdout(io.StringIO()), contextlib.redirect_stderr(io.StringIO()):
                 other = [dict(q=1, w='keep'), dict(q=2, w=None)]
                 try:
-                    ds = Flow(tuple_source([('t', fields, copy.deepcopy(rows), pk), ('other', [('q', 'integer'), ('w', 'string')], copy.deepcopy(other))]),
-                              DF.dump_to_sql(dict(tbl=conf), engine=engine, updated_column='upd', batch_size=c['batch'],
+                    two = bool(variant.get('two_tables'))
+                    tables = dict(tbl=conf)
+                    srcs = [('t', fields, copy.deepcopy(rows), pk), ('other', [('q', 'integer'), ('w', 'string')], copy.deepcopy(other))]
+                    if two:
+                        # the same step writes a SECOND resource with the same columns into a second table: what it did for the first
+                        # resource must not leak into the second (each table ends up with exactly its own rows, encoded once)
+                        tables['tbl2'] = dict(conf, **{'resource-name': 't2'})
+                        srcs.append(('t2', fields, copy.deepcopy(rows), pk))
+                    ds = Flow(tuple_source(srcs),
+                              DF.dump_to_sql(tables, engine=engine, updated_column='upd', batch_size=c['batch'],
                                              use_bloom_filter=c['bloom'])).datastream()
                     streams = [[dict(r) for r in res] for res in ds.res_iter]
+                    if two:
+                        second = streams.pop()
+                        if [{k_: v_ for k_, v_ in r_.items()} for r_ in second] != streams[0]:
+                            return dict(ok=False, why='the second dumped resource continues downstream differently from the first', got=second[:2], first=streams[0][:2])
                 except Exception as e:
                     cause = getattr(e, 'cause', e)
                     if variant.get('dur') and existed and rows and "type 'datetime.timedelta' is not supported" in str(cause):
@@ -144,6 +156,14 @@ def replay_history(item):
                 got_tbl, want_tbl = sorted(got_tbl, key=canon), sorted(want_tbl, key=canon)
             if not same_json(got_tbl, want_tbl):
                 return dict(ok=False, why='table after dump %d (%s) differs' % (n, d['mode']), got=got_tbl, want=want_tbl)
+            if variant.get('two_tables'):
+                with engine.connect() as con:
+                    tbl2 = [tuple(r) for r in con.execute(text('select k, v, arr, obj from tbl2 order by rowid' if nested else 'select k, v, null, null from tbl2 order by rowid'))]
+                got2 = [(k, v, json.loads(a) if a is not None else None, json.loads(o) if o is not None else None) for k, v, a, o in tbl2]
+                if variant['pk']:
+                    got2 = sorted(got2, key=canon)
+                if not same_json(got2, want_tbl):
+                    return dict(ok=False, why='second table after dump %d (%s) differs' % (n, d['mode']), got=got2, want=want_tbl)
             flags = [r.get('upd') for r in down]
             if flags != lg['flags']:
                 return dict(ok=False, why='updated flags of dump %d (%s) differ' % (n, d['mode']), got=flags, want=lg['flags'])
@@ -180,7 +200,7 @@ def run():
     items = []
     for c in cases:
         allupd = all(d['mode'] == 'update' for d in c['hist'])
-        items.append(dict(case=c, variant=dict(pk=bool(allupd and r.random() < 0.5), dur=r.random() < 0.3, nested=r.random() < 0.75)))
+        items.append(dict(case=c, variant=dict(pk=bool(allupd and r.random() < 0.5), dur=r.random() < 0.3, nested=r.random() < 0.75, two_tables=r.random() < 0.3)))
     res = pmap(replay_history, items, chunksize=16)
     errs = harness_errors(res)
     if errs:
